@@ -91,9 +91,12 @@ def decide(prop, tier='quick', rlimit=None):
             if f['fn'] not in mine_names:
                 continue
             key = f['clause'] or f"safety@{f['src']}"
+            kind = 'safety'
             if f['clause'] and 'postcondition' in f['msg']:
                 cid = f['clause']
+                kind = 'contract'
             elif f['clause'] and ('/hint_' in f['clause'] or '/prologue' in f['clause'] or '/loop' in f['clause']):
+                kind = 'proof_step'
                 # a proof step (hint assertion / loop invariant) that discharged on the reference tree no longer does
                 parts = f['clause'][len(f['fn']) + 1:].split('/') if f['clause'].startswith(f['fn'] + '/') else [f['clause'].split('/')[-1]]
                 if len(parts) >= 2 and parts[-1].startswith('hint_'):
@@ -104,7 +107,7 @@ def decide(prop, tier='quick', rlimit=None):
                 cid = f"{f['fn']}/safety[callee precondition {f['clause']}]@{f['src']}"
             else:
                 cid = f"{f['fn']}/safety@{f['src']}:{f['msg']}"
-            f = dict(f, cid=cid, unit=r.name)
+            f = dict(f, cid=cid, unit=r.name, kind=kind)
             kf = known_for.get(f['clause']) if f['clause'] else None
             if kf is None:
                 kf = known_for.get(f"{f['fn']}/safety")
@@ -172,9 +175,11 @@ def decide(prop, tier='quick', rlimit=None):
         for i in infra:
             print("  " + i.replace('\n', '\n    '))
         rc = 2
+    undecided = []
     if violations:
         os.makedirs(REPLAY_OUT, exist_ok=True)
         seenv = set()
+        reported = 0
         for v in violations:
             if v['cid'] in seenv:
                 continue
@@ -187,6 +192,19 @@ def decide(prop, tier='quick', rlimit=None):
                 witness = wit.find(prop, v)
             except Exception as e:  # the finder never decides anything
                 witness = dict(found=False, note=f"witness finder unavailable: {e!r}")
+            # A failed PROOF STEP (loop invariant, hint assertion, lemma precondition inside a hint) means the proof no longer
+            # goes through; that alone does not show the contract is violated (hoisting a condition out of a loop is enough).
+            # Where the obligation has an executable twin and its exhaustive small-input search through the real code finds
+            # no failing input, the obligation is reported as undecided (exit 2), not as a violation.  Failed contract
+            # clauses (ensures) and safety obligations (overflow, panics, callee preconditions) are always violations.
+            if v.get('kind') == 'proof_step' and witness and not witness.get('found') and witness.get('completed'):
+                undecided.append((v, witness, path))
+                with open(path, 'w') as fh:
+                    json.dump(dict(property=prop, undecided_obligation=v['cid'], function=v['fn'], repo_location=f"{v['file']}:{v['line']}",
+                                   verifier_message=v['msg'], verifier_output=v['rendered'], unit=v['unit'],
+                                   repo_state=repo_state(), witness=witness), fh, indent=1)
+                continue
+            reported += 1
             with open(path, 'w') as fh:
                 json.dump(dict(property=prop, failed_obligation=v['cid'], function=v['fn'], repo_location=f"{v['file']}:{v['line']}",
                                verifier_message=v['msg'], verifier_output=v['rendered'], unit=v['unit'],
@@ -195,7 +213,16 @@ def decide(prop, tier='quick', rlimit=None):
             suffix = '' if (witness and witness.get('found')) else ' no-failing-input-found'
             print(f"VIOLATION property={prop} replay={path}{suffix}")
             print(f"  failed obligation: {v['cid']}  ({v['file']}:{v['line']} {v['fn']})")
-        rc = 1
+        if reported:
+            rc = 1
+        else:
+            violations = []
+        if undecided:
+            if rc == 0:
+                rc = 2
+            print(f"UNDECIDED property={prop}: {len(undecided)} proof step(s) no longer discharge, and the exhaustive small-input search through the real code found no failing input (exit 2 unless a violation is reported above)")
+            for v, w, path in undecided:
+                print(f"  undecided obligation: {v['cid']}  (finder {w.get('finder')}; details {path})")
     wall = time.time() - t0
     ev = dict(
         property_id=prop, tier=tier if tier in ('quick', 'thorough') else 'quick', seed=int(os.environ.get('VERIF_SEED', '0') or 0), level='proof',
@@ -218,7 +245,7 @@ def decide(prop, tier='quick', rlimit=None):
         violations=len({v['cid'] for v in violations}) if rc == 1 else 0,
     )
     if rc == 2:
-        ev['coverage']['infrastructure_errors'] = infra[:10]
+        ev['coverage']['infrastructure_errors'] = infra[:10] + [f"undecided proof step: {v['cid']}" for v, _, _ in undecided][:10]
     with open(os.path.join(EVID, prop + '.json'), 'w') as fh:
         json.dump(ev, fh, indent=1)
     if rc == 0:
